@@ -279,6 +279,11 @@ def check_foreign(c):
               "msg": {"t": "msg", "v": "00"}}[other_kind]
     other = M.build_tlv(sample)
     expect_raise(devs, f"foreign.holder_concrete.{tag}", holder_call(T, T.TlvHolder(other), kind), accept=(TypeError, Mismatch))
+    # a generic TLV whose type octet is not one of the six assigned codes (the generic class carries any octet): still a type mismatch
+    for code in (3, 7, 8 + c["foreign"], 0x80 | TYPE_OF[kind], 255):
+        g2 = T.CfdpTlv(code, value)
+        expect_raise(devs, f"foreign.unassigned_type.from_tlv.{tag}", cls.from_tlv, g2, accept=(Mismatch,))
+        expect_raise(devs, f"foreign.unassigned_type.holder.{tag}", holder_call(T, T.TlvHolder(g2), kind), accept=(Mismatch,))
     return devs
 
 
